@@ -25,6 +25,36 @@ pub trait ByteConv: Sized {
     fn dec_vec(b: Vec<u8>) -> Result<Self, String>;
     fn dec_ref_vec(b: &Vec<u8>) -> Result<Self, String>;
     fn dec_box(b: Box<[u8]>) -> Result<Self, String>;
+    /// from_be_bytes on the same bytes, where the type has it and the bytes fit its argument type
+    fn dec_be(_b: &[u8]) -> Option<Result<Self, String>> {
+        None
+    }
+    /// from_le_bytes on the little-endian form of the same bytes
+    fn dec_le(_b: &[u8]) -> Option<Result<Self, String>> {
+        None
+    }
+}
+
+macro_rules! byteconv_scalar {
+    ($t:ty) => {
+        impl<C: BlsSignatureImpl> ByteConv for $t {
+            fn enc(&self) -> Vec<u8> { Vec::<u8>::from(self) }
+            fn enc_owned(self) -> Vec<u8> { Vec::<u8>::from(self) }
+            fn dec(b: &[u8]) -> Result<Self, String> { <$t>::try_from(b).map_err(|e| e.to_string()) }
+            fn dec_vec(b: Vec<u8>) -> Result<Self, String> { <$t>::try_from(b).map_err(|e| e.to_string()) }
+            fn dec_ref_vec(b: &Vec<u8>) -> Result<Self, String> { <$t>::try_from(b).map_err(|e| e.to_string()) }
+            fn dec_box(b: Box<[u8]>) -> Result<Self, String> { <$t>::try_from(b).map_err(|e| e.to_string()) }
+            fn dec_be(b: &[u8]) -> Option<Result<Self, String>> {
+                let a: [u8; 32] = b.try_into().ok()?;
+                Some(Option::<Self>::from(<$t>::from_be_bytes(&a)).ok_or_else(|| "from_be_bytes: none".to_string()))
+            }
+            fn dec_le(b: &[u8]) -> Option<Result<Self, String>> {
+                let mut a: [u8; 32] = b.try_into().ok()?;
+                a.reverse();
+                Some(Option::<Self>::from(<$t>::from_le_bytes(&a)).ok_or_else(|| "from_le_bytes: none".to_string()))
+            }
+        }
+    };
 }
 
 macro_rules! byteconv {
@@ -39,7 +69,7 @@ macro_rules! byteconv {
         }
     };
 }
-byteconv!(SecretKey<C>, C: BlsSignatureImpl);
+byteconv_scalar!(SecretKey<C>);
 byteconv!(PublicKey<C>, C: BlsSignatureImpl);
 byteconv!(MultiPublicKey<C>, C: BlsSignatureImpl);
 byteconv!(ProofOfPossession<C>, C: BlsSignatureImpl);
@@ -47,8 +77,8 @@ byteconv!(Signature<C>, C: BlsSignatureImpl);
 byteconv!(AggregateSignature<C>, C: BlsSignatureImpl);
 byteconv!(MultiSignature<C>, C: BlsSignatureImpl);
 byteconv!(ProofCommitment<C>, C: BlsSignatureImpl);
-byteconv!(ProofCommitmentSecret<C>, C: BlsSignatureImpl);
-byteconv!(ProofCommitmentChallenge<C>, C: BlsSignatureImpl);
+byteconv_scalar!(ProofCommitmentSecret<C>);
+byteconv_scalar!(ProofCommitmentChallenge<C>);
 byteconv!(ProofOfKnowledge<C>, C: BlsSignatureImpl);
 byteconv!(ProofOfKnowledgeTimestamp<C>, C: BlsSignatureImpl);
 byteconv!(SecretKeyShare<C>, C: BlsSignatureImpl);
@@ -62,7 +92,24 @@ byteconv!(ElGamalCiphertext<C>, C: BlsSignatureImpl);
 byteconv!(ElGamalProof<C>, C: BlsSignatureImpl);
 byteconv!(ElGamalDecryptionShare<C>, C: BlsSignatureImpl);
 byteconv!(ElGamalDecryptionKey<C>, C: BlsSignatureImpl);
-byteconv!(SecretKeyEnum,);
+impl ByteConv for SecretKeyEnum {
+    fn enc(&self) -> Vec<u8> { Vec::<u8>::from(self) }
+    fn enc_owned(self) -> Vec<u8> { Vec::<u8>::from(self) }
+    fn dec(b: &[u8]) -> Result<Self, String> { SecretKeyEnum::try_from(b).map_err(|e| e.to_string()) }
+    fn dec_vec(b: Vec<u8>) -> Result<Self, String> { SecretKeyEnum::try_from(b).map_err(|e| e.to_string()) }
+    fn dec_ref_vec(b: &Vec<u8>) -> Result<Self, String> { SecretKeyEnum::try_from(b).map_err(|e| e.to_string()) }
+    fn dec_box(b: Box<[u8]>) -> Result<Self, String> { SecretKeyEnum::try_from(b).map_err(|e| e.to_string()) }
+    fn dec_be(b: &[u8]) -> Option<Result<Self, String>> {
+        Some(Option::<Self>::from(SecretKeyEnum::from_be_bytes(b)).ok_or_else(|| "from_be_bytes: none".to_string()))
+    }
+    fn dec_le(b: &[u8]) -> Option<Result<Self, String>> {
+        let mut a = b.to_vec();
+        if a.len() > 1 {
+            a[1..].reverse();
+        }
+        Some(Option::<Self>::from(SecretKeyEnum::from_le_bytes(&a)).ok_or_else(|| "from_le_bytes: none".to_string()))
+    }
+}
 byteconv!(InnerPointShareG1,);
 byteconv!(InnerPointShareG2,);
 
@@ -534,11 +581,24 @@ where
 }
 
 pub fn decode_bytes<T: ByteConv + PartialEq>(orig: &T, b: &[u8]) -> (Dec, Option<T>) {
-    match guard(|| T::dec(b)) {
-        Err(p) => (Dec::Abort(p), None),
-        Ok(Err(_)) => (Dec::Err, None),
-        Ok(Ok(v)) => (if &v == orig { Dec::Same } else { Dec::Other }, Some(v)),
+    let first = dec_of(orig, guard(|| T::dec(b)));
+    let mut others = vec![
+        ("TryFrom<Vec<u8>>", dec_of(orig, guard(|| T::dec_vec(b.to_vec())))),
+        ("TryFrom<&Vec<u8>>", dec_of(orig, guard(|| T::dec_ref_vec(&b.to_vec())))),
+        ("TryFrom<Box<[u8]>>", dec_of(orig, guard(|| T::dec_box(b.to_vec().into_boxed_slice())))),
+    ];
+    // the endian-named constructors on the same value (big-endian bytes as given, little-endian bytes reversed)
+    match std::panic::catch_unwind(std::panic::AssertUnwindSafe(|| T::dec_be(b))) {
+        Ok(Some(r)) => others.push(("from_be_bytes", dec_of(orig, Ok(r)))),
+        Ok(None) => {}
+        Err(_) => return (Dec::Abort("from_be_bytes panicked".into()), None),
     }
+    match std::panic::catch_unwind(std::panic::AssertUnwindSafe(|| T::dec_le(b))) {
+        Ok(Some(r)) => others.push(("from_le_bytes", dec_of(orig, Ok(r)))),
+        Ok(None) => {}
+        Err(_) => return (Dec::Abort("from_le_bytes panicked".into()), None),
+    }
+    agree(first, others)
 }
 fn dec_of<T: PartialEq>(orig: &T, r: Result<Result<T, String>, String>) -> (Dec, Option<T>) {
     match r {
